@@ -6,6 +6,7 @@ From K Require Import Proofs.StepRefines.
 From K Require Import Proofs.StepRefinesCtl Proofs.StepRefines2.
 From K Require Import Proofs.StepRefines4.
 From K Require Import Proofs.StepRefinesL.
+From K Require Import Proofs.MovExtProofs.
 Open Scope Z_scope.
 
 (* MOV Rs,Rd (B/W/L): the value of the source lane is copied unchanged into the destination lane, N and Z
@@ -260,6 +261,90 @@ Theorem step_push_long :
     step s = Ok n (set_opc (pc s + 2) s').
 Proof. exact step_push_l_proof. Qed.
 
+(* ---- forms with extension words: the handler (fetch of the extension word(s), effective address, access) = the reference
+   transformer followed by the charge, for every state in which the extension words are the next words to be fetched ---- *)
+Theorem mov_displacement16_load :
+  forall z op op2 d s,
+    let w := opw z op op2 in let s1 := post_fetch s in
+    cpu_ok s -> bus_bytes_ok s -> pc s mod 2 = 0 -> 0 <= pc s -> pc s + 2 < 4294967296 -> mem_read SW s (pc s) = Some d ->
+    Z.land w 0x80 = 0 -> 0 <= nib w 3 < 8 -> field_ok z (nib w 4) ->
+    let a := ea_addr z s (EDisp (nib w 3) (sx 16 d)) in
+    run_tag (TMovDisp16 z) op op2 0 s =
+    then_charge (option_map (fun v => with_ccr (mov_ccr z v (ccr s)) (set_reg z s1 (nib w 4) v)) (mem_read z s a)) (mov_charge z a (icnt2 z) 0).
+Proof. exact mov_disp16_load_proof. Qed.
+
+Theorem mov_displacement16_store :
+  forall z op op2 d s,
+    let w := opw z op op2 in let s1 := post_fetch s in
+    cpu_ok s -> bus_bytes_ok s -> pc s mod 2 = 0 -> 0 <= pc s -> pc s + 2 < 4294967296 -> mem_read SW s (pc s) = Some d ->
+    Z.land w 0x80 <> 0 -> field_ok z (nib w 4) ->
+    let a := ea_addr z s (EDisp (Z.land (nib w 3) 7) (sx 16 d)) in
+    run_tag (TMovDisp16 z) op op2 0 s =
+    then_charge (option_map (fun s2 => with_ccr (mov_ccr z (reg z s (nib w 4)) (ccr s)) s2) (mem_write z s1 a (reg z s (nib w 4)))) (mov_charge z a (icnt2 z) 0).
+Proof. exact mov_disp16_store_proof. Qed.
+
+Theorem mov_absolute16_load :
+  forall z op op2 d s,
+    let w := opw z op op2 in let s1 := post_fetch s in
+    cpu_ok s -> bus_bytes_ok s -> pc s mod 2 = 0 -> 0 <= pc s -> pc s + 2 < 4294967296 -> mem_read SW s (pc s) = Some d ->
+    Z.land w 0xfff0 = (match z with SB => 0x6a00 | _ => 0x6b00 end) -> field_ok z (nib w 4) ->
+    run_tag (TMovAbs16 z) op op2 0 s =
+    then_charge (option_map (fun v => with_ccr (mov_ccr z v (ccr s)) (set_reg z s1 (nib w 4) v)) (mem_read z s (abs16 d))) (mov_charge z (abs16 d) (icnt2 z) 0).
+Proof. exact mov_abs16_load_proof. Qed.
+
+Theorem mov_absolute16_store :
+  forall z op op2 d s,
+    let w := opw z op op2 in let s1 := post_fetch s in
+    cpu_ok s -> bus_bytes_ok s -> pc s mod 2 = 0 -> 0 <= pc s -> pc s + 2 < 4294967296 -> mem_read SW s (pc s) = Some d ->
+    Z.land w 0xfff0 <> (match z with SB => 0x6a00 | _ => 0x6b00 end) -> field_ok z (nib w 4) ->
+    run_tag (TMovAbs16 z) op op2 0 s =
+    then_charge (option_map (fun s2 => with_ccr (mov_ccr z (reg z s (nib w 4)) (ccr s)) s2) (mem_write z s1 (abs16 d) (reg z s (nib w 4)))) (mov_charge z (abs16 d) (icnt2 z) 0).
+Proof. exact mov_abs16_store_proof. Qed.
+
+Theorem mov_absolute24_load :
+  forall z op op2 h l s,
+    let w := opw z op op2 in let s1 := post_fetch_2w s in
+    cpu_ok s -> bus_bytes_ok s -> pc s mod 2 = 0 -> 0 <= pc s -> pc s + 4 < 4294967296 ->
+    mem_read SW s (pc s) = Some h -> mem_read SW s (pc s + 2) = Some l ->
+    Z.land w 0xfff0 = (match z with SB => 0x6a20 | _ => 0x6b20 end) -> field_ok z (nib w 4) ->
+    let a := h * 65536 + l in
+    run_tag (TMovAbs24 z) op op2 0 s =
+    then_charge (option_map (fun v => with_ccr (mov_ccr z v (ccr s)) (set_reg z s1 (nib w 4) v)) (mem_read z s a)) (mov_charge z a (icnt3 z) 0).
+Proof. exact mov_abs24_load_proof. Qed.
+
+Theorem mov_absolute24_store :
+  forall z op op2 h l s,
+    let w := opw z op op2 in let s1 := post_fetch_2w s in
+    cpu_ok s -> bus_bytes_ok s -> pc s mod 2 = 0 -> 0 <= pc s -> pc s + 4 < 4294967296 ->
+    mem_read SW s (pc s) = Some h -> mem_read SW s (pc s + 2) = Some l ->
+    Z.land w 0xfff0 <> (match z with SB => 0x6a20 | _ => 0x6b20 end) -> field_ok z (nib w 4) ->
+    let a := h * 65536 + l in
+    run_tag (TMovAbs24 z) op op2 0 s =
+    then_charge (option_map (fun s2 => with_ccr (mov_ccr z (reg z s (nib w 4)) (ccr s)) s2) (mem_write z s1 a (reg z s (nib w 4)))) (mov_charge z a (icnt3 z) 0).
+Proof. exact mov_abs24_store_proof. Qed.
+
+Theorem mov_displacement24_load :
+  forall z op op2 h l s,
+    z <> SL -> let s1 := post_fetch_2w s in
+    cpu_ok s -> bus_bytes_ok s -> pc s mod 2 = 0 -> 0 <= pc s -> pc s + 4 < 4294967296 ->
+    mem_read SW s (pc s) = Some h -> mem_read SW s (pc s + 2) = Some l -> 0 <= h < 256 ->
+    Z.land op2 0xfff0 = (match z with SB => 0x6a20 | _ => 0x6b20 end) -> 0 <= nib op 3 < 8 -> field_ok z (nib op2 4) ->
+    let a := ea_addr z s (EDisp (nib op 3) (sx 24 (h * 65536 + l))) in
+    run_tag (TMovDisp24 z) op op2 0 s =
+    then_charge (option_map (fun v => with_ccr (mov_ccr z v (ccr s)) (set_reg z s1 (nib op2 4) v)) (mem_read z s a)) (mov_charge z a 4 0).
+Proof. exact mov_disp24_load_proof. Qed.
+
+Theorem mov_displacement24_store :
+  forall z op op2 h l s,
+    z <> SL -> let s1 := post_fetch_2w s in
+    cpu_ok s -> bus_bytes_ok s -> pc s mod 2 = 0 -> 0 <= pc s -> pc s + 4 < 4294967296 ->
+    mem_read SW s (pc s) = Some h -> mem_read SW s (pc s + 2) = Some l -> 0 <= h < 256 ->
+    Z.land op2 0xfff0 <> (match z with SB => 0x6a20 | _ => 0x6b20 end) -> field_ok z (nib op2 4) ->
+    let a := ea_addr z s (EDisp (Z.land (nib op 3) 7) (sx 24 (h * 65536 + l))) in
+    run_tag (TMovDisp24 z) op op2 0 s =
+    then_charge (option_map (fun s2 => with_ccr (mov_ccr z (reg z s (nib op2 4)) (ccr s)) s2) (mem_write z s1 a (reg z s (nib op2 4)))) (mov_charge z a 4 0).
+Proof. exact mov_disp24_store_proof. Qed.
+
 Print Assumptions mov_register_refines.
 Print Assumptions mov_flags_rule.
 Print Assumptions byte_lane_read.
@@ -288,3 +373,11 @@ Print Assumptions step_mov_long_load.
 Print Assumptions step_mov_long_store.
 Print Assumptions step_pop_long.
 Print Assumptions step_push_long.
+Print Assumptions mov_displacement16_load.
+Print Assumptions mov_displacement16_store.
+Print Assumptions mov_absolute16_load.
+Print Assumptions mov_absolute16_store.
+Print Assumptions mov_absolute24_load.
+Print Assumptions mov_absolute24_store.
+Print Assumptions mov_displacement24_load.
+Print Assumptions mov_displacement24_store.
